@@ -1513,12 +1513,43 @@ class Interp:
                             elif g[0] == "itercount" and g[3] == "atleast":
                                 lb = max(lb, g[2])
                     can_exit = (exact is None or exact == k or (k == self.unroll and exact >= k)) and (k >= min(lb, self.unroll))
+                    # a counting loop `for _ in range(n)` with a symbolic n: the number of iterations is n - what is known
+                    # about n's range (and the guards) bounds it
+                    rng_n = None
+                    if itv[0] == "app" and itv[1] in ("range", "builtins.range") and len(itv) == 3:
+                        rng_n = itv[2]
+                    elif itv[0] == "app" and itv[1] in ("range", "builtins.range") and len(itv) in (4, 5) and itv[2] == c(0) and (len(itv) == 4 or itv[4] == c(1)):
+                        rng_n = itv[3]
+                    can_go = True
+                    if rng_n is not None and not is_c(rng_n):
+                        from .frames import int_bounds_from_guard, restrict as _restrict
+
+                        def _refold(t_: Any) -> Any:
+                            if isinstance(t_, tuple) and len(t_) == 4 and t_[0] == "app" and t_[1] in ("floordiv", "mod", "add", "sub", "mul"):
+                                a_, b_ = _refold(t_[2]), _refold(t_[3])
+                                return self.lib.arith(t_[1], a_, b_)
+                            return t_
+                        rng_n = _refold(_restrict(rng_n, list(s1.pc)))       # (what the path already knows about the count)
+                    if rng_n is not None and is_c(rng_n) and isinstance(rng_n[1], int):
+                        if rng_n[1] > k and k < self.unroll:
+                            can_exit = False
+                        if rng_n[1] <= k:
+                            can_go = False
+                    elif rng_n is not None:
+                        r0 = T.int_range(rng_n) or (None, None)
+                        g0 = int_bounds_from_guard(list(s1.pc), rng_n)
+                        lo_n = max([x for x in (r0[0], g0[0]) if x is not None], default=None)
+                        hi_n = min([x for x in (r0[1], g0[1]) if x is not None], default=None)
+                        if lo_n is not None and lo_n > k and k < self.unroll:
+                            can_exit = False          # n > k: the loop cannot stop after k iterations
+                        if hi_n is not None and hi_n <= k:
+                            can_go = False            # n <= k: there is no iteration k+1
                     if can_exit:
                         # exit after k iterations
                         se = s1.fork()
                         se.pc.append(("itercount", itv, k, "exact" if k < self.unroll else "atleast"))
                         out.extend(self.exec_block(node.orelse, se, ctx) if node.orelse else [(se, None)])
-                    if k == self.unroll or (exact is not None and exact <= k):
+                    if k == self.unroll or (exact is not None and exact <= k) or not can_go:
                         continue
                     if itv[0] == "slicelist" and itv[3] is not None and k >= itv[3] - itv[2]:
                         continue  # the slice has at most hi-lo elements
@@ -2204,6 +2235,35 @@ class Interp:
                         if k_.key in out:
                             raise AnalysisError(f"class {k_.name}: __post_init__ is replaced by more than one decorator")
                         out[k_.key] = v
+                # class keywords (`class C(Base, category=X)`) go to the nearest __init_subclass__ of the bases
+                kws = [kw for kw in getattr(k_.node, "keywords", []) if kw.arg != "metaclass"]
+                hook = None
+                for b_ in k_.mro()[1:]:
+                    if "__init_subclass__" in b_.methods:
+                        hook = b_.methods["__init_subclass__"]
+                        break
+                if kws and hook is None:
+                    raise AnalysisError(f"class {k_.name} passes keywords to a base that defines no __init_subclass__ in the package")
+                if hook is not None:
+                    sub = State()
+                    cctx = Ctx(None, k_.module, 0)
+                    self._class_replay = {}
+                    try:
+                        kwv = {}
+                        for kw in kws:
+                            if kw.arg is None:
+                                raise AnalysisError(f"class {k_.name}: ** in the class keywords")
+                            kwv[kw.arg] = self.eval(kw.value, sub, cctx)
+                        outs_ = self._invoke(hook, self.bind(hook, [], kwv, ("class", k_), where), sub, cctx)
+                    finally:
+                        rec, self._class_replay = self._class_replay, None
+                    if len(outs_) != 1 or outs_[0].kind != "return" or outs_[0].state.pending or any(e.kind == "call" and not _benign_event(e, outs_[0].state) for e in outs_[0].state.events):
+                        raise AnalysisError(f"__init_subclass__ of {hook.qualname} is not followed for class {k_.name}")
+                    for (ck, attr), v in rec.items():
+                        rv = self.reify(v, outs_[0].state)
+                        if ck != k_.key or rv is None or attr.startswith("__"):
+                            raise AnalysisError(f"__init_subclass__ stores {attr} on {ck} for class {k_.name}: only constant class attributes are followed")
+                        out[(k_.key, attr)] = rv
         except (AnalysisError, Unsupported, NeedSplit, Infeasible) as exc:
             memo[ci.key] = str(exc) if isinstance(exc, AnalysisError) else f"class decorators of {ci.name} could not be followed ({type(exc).__name__})"
             raise AnalysisError(memo[ci.key])
@@ -2787,9 +2847,20 @@ class Interp:
                             return ("bound", ("class", ho.cls), mth)
                         return ("bound", base, mth)
                 if ho.cls is not None:
+                    ov_ = self.class_overrides(ho.cls, ctx.loc(node))
+                    if ov_:
+                        for k_ in ho.cls.mro():
+                            if (k_.key, attr) in ov_:
+                                return ov_[(k_.key, attr)]      # a class attribute set by __init_subclass__
                     ca = ho.cls.class_level_init(attr)
                     if ca is not None:
-                        return self.class_attr_value(ca[0], attr, ca[1], st, ctx, node)
+                        cv_ = self.class_attr_value(ca[0], attr, ca[1], st, ctx, node)
+                        if isinstance(cv_, tuple) and cv_[:1] == ("obj",) and cv_[1] in st.heap and st.heap[cv_[1]].cls is not None:
+                            dget_ = st.heap[cv_[1]].cls.find_method("__get__")
+                            if dget_ is not None:
+                                # a descriptor: reading the attribute through an instance is descr.__get__(instance, owner)
+                                return self.call_user_nested(("bound", cv_, dget_), [base, ("class", ho.cls)], {}, st, ctx, node)
+                        return cv_
                 if ho.symbolic:
                     typ: Any = "any"
                     if ho.cls is not None:
